@@ -149,6 +149,9 @@ template<class T> struct vector
   const_iterator begin() const {return b_;}
   const_iterator end() const {return b_ + n_;}
   void clear() {n_ = 0;}
+  T& back() { __CPROVER_assert(n_ > 0, "std::vector::back() on an empty vector"); return b_[n_ > 0 ? n_ - 1 : 0]; }
+  const T& back() const { __CPROVER_assert(n_ > 0, "std::vector::back() on an empty vector"); return b_[n_ > 0 ? n_ - 1 : 0]; }
+  void pop_back() { __CPROVER_assert(n_ > 0, "std::vector::pop_back() on an empty vector"); if (n_ > 0) n_ = n_ - 1; }
 };
 }
 namespace std { using vstd_ns::string; using vstd_ns::vector; typedef vstd_size_t size_t; }
